@@ -24,12 +24,14 @@ OpSet == CASE Preset = "ids" -> {"Emplace", "InsertCopy", "Erase", "SetAlias", "
            [] Preset = "deps" -> {"Emplace", "SetExpression", "Erase"}
            [] Preset = "kinds" -> {"Emplace", "SetExpression", "Erase", "SetAlias"}
            [] Preset = "names" -> {"Emplace", "SetAlias", "ResetAliases", "SetConvention", "SetTerm", "SetText", "InsertCopy", "Erase"}
+           [] Preset = "ops" -> {"Emplace", "Erase"}
 UidPool == 1..(MaxCst + 1)
 EmplaceKinds == CASE Preset = "ids" -> {"base", "constant", "structured", "term", "axiom"}
                   [] Preset = "deps" -> {"base", "term"}
                   [] Preset = "dups" -> {"base", "term"}
                   [] Preset = "kinds" -> {"base", "structured", "term", "function", "axiom"}
                   [] Preset = "names" -> {"base", "term"}
+                  [] Preset = "ops" -> {"base", "term", "axiom"}
 \* definitions offered when a constituent of kind k is created
 KindDefs(k) == CASE Preset = "ids" -> {1, 2}
                  [] Preset = "dups" -> IF k = "base" THEN {1} ELSE {2, 5}
@@ -37,8 +39,9 @@ KindDefs(k) == CASE Preset = "ids" -> {1, 2}
                  [] Preset = "kinds" -> (CASE k = "base" -> {1} [] k = "structured" -> {4, 18} [] k = "term" -> {2, 5, 9, 10, 11, 13, 16}
                                           [] k = "function" -> {12} [] k = "axiom" -> {14, 15})
                  [] Preset = "names" -> IF k = "base" THEN {1} ELSE {5, 16, 19}
+                 [] Preset = "ops" -> (CASE k = "base" -> {1} [] k = "term" -> {2, 5, 6, 10, 20, 21} [] k = "axiom" -> {15})
 \* definitions offered to SetExpression
-EditDefs == CASE Preset = "ids" -> {1, 2} [] Preset = "dups" -> {} [] Preset = "deps" -> {2, 5, 6, 7, 8, 17} [] Preset = "kinds" -> {1, 2, 5, 10, 12, 13, 14, 16} [] Preset = "names" -> {}
+EditDefs == CASE Preset = "ids" -> {1, 2} [] Preset = "dups" -> {} [] Preset = "deps" -> {2, 5, 6, 7, 8, 17} [] Preset = "kinds" -> {1, 2, 5, 10, 12, 13, 14, 16} [] Preset = "names" -> {} [] Preset = "ops" -> {}
 AliasPool == CASE Preset = "ids" -> {"X1", "X2", "D1", "Q7"} [] Preset = "dups" -> {"D3"} [] Preset = "kinds" -> {"D1", "D2", "X2"} [] Preset = "names" -> {"X1", "X11", "X2", "D1", "D11", "D2"} [] OTHER -> {}
 RecUids == {1, 2}
 RecAliases == IF Preset = "names" THEN {"X1", "D1", "X11"} ELSE {"X1", "D1", "Q7"}
@@ -65,7 +68,9 @@ DefPool == <<
   Node("UNION", <<G1("D1"), G1("D2")>>),                                  \* 16
   Node("UNION", <<G1("D2"), G1("X1")>>),                                  \* 17 depends on D2 (cycle with 5/8 on D2)
   Node("BOOLEAN", <<G1("X2")>>),                                          \* 18 depends on X2
-  Node("UNION", <<Node("UNION", <<G1("X1"), G1("X11")>>), Node("DECLARATIVE", <<Loc("x1"), G1("D1"), Node("IN", <<Loc("x1"), G1("D11")>>)>>)>>)   \* 19 X1, X11, D1, D11 and a local x1
+  Node("UNION", <<Node("UNION", <<G1("X1"), G1("X11")>>), Node("DECLARATIVE", <<Loc("x1"), G1("D1"), Node("IN", <<Loc("x1"), G1("D11")>>)>>)>>),  \* 19 X1, X11, D1, D11 and a local x1
+  Node("UNION", <<G1("X2"), G1("X1")>>),                                  \* 20 two base sets
+  Node("UNION", <<G1("D3"), G1("D2")>>)                                   \* 21 depends on later terms
 >>
 Words == <<"note", "X1", "D1">>                       \* conventions: plain word, and words that are aliases
 \* a plain "word" may itself be reference syntax the model does not interpret: a collaboration reference stays as it is
@@ -92,7 +97,7 @@ Next ==
         /\ \E r \in RecPool : \E f \in {Fresh2(r.uid)} :
               Step(InsertCopy(r, f), [Op("InsertCopy") EXCEPT !.fresh = f,
                      !.rec = <<[uid |-> r.uid, alias |-> r.alias, kind |-> r.kind, d |-> Toks(r.def), conv |-> r.conv, term |-> r.term, text |-> r.text]>>])
-     \/ /\ "Erase" \in OpSet /\ \E u \in UidPool : Step(Erase(u), [Op("Erase") EXCEPT !.u = u])
+     \/ /\ "Erase" \in OpSet /\ \E u \in (IF Preset = "ops" THEN Ids ELSE UidPool) : Step(Erase(u), [Op("Erase") EXCEPT !.u = u])
      \/ /\ "SetAlias" \in OpSet /\ \E u \in Ids, a \in AliasPool, b \in BOOLEAN : Step(SetAlias(u, a, b), [Op("SetAlias") EXCEPT !.u = u, !.a = a, !.b = b])
      \/ /\ "SetExpression" \in OpSet /\ \E u \in Ids, i \in EditDefs :
               Step(SetExpression(u, DefPool[i]), [Op("SetExpression") EXCEPT !.u = u, !.d = Toks(DefPool[i]), !.hasdef = (DefPool[i] # NoDef)])
